@@ -38,6 +38,9 @@ let z_of_string (s : string) : z =
 let handle (line : string) : string =
   match String.split_on_char ' ' line with
   | ["parse"; fe; hex] -> string_of_bytes (model_parse (z_of_int (int_of_string fe)) (bytes_of_hex hex))
+  | ["chunks"; fe; hexes] ->
+      let cs = List.map bytes_of_hex (List.filter (fun x -> x <> "") (String.split_on_char ',' hexes)) in
+      string_of_bytes (model_parse_chunks (z_of_int (int_of_string fe)) cs)
   | ["accept"; one; hex] -> if spec_accepts (one = "1") (bytes_of_hex hex) then "1" else "0"
   | ["spec"; one; hex] -> string_of_bytes (spec_parse (one = "1") true (bytes_of_hex hex))
   | ["speck"; one; hex] -> string_of_bytes (spec_parse (one = "1") false (bytes_of_hex hex))
